@@ -10,27 +10,33 @@
      - on histories without reset a confirmed contract of the host always has its element. *)
 From Coq Require Import Lia ZifyBool ZifyN.
 From HostdBase Require Import Base.
-From HostdElements Require Import Model Proofs ProofsTotal.
+From HostdElements Require Import Model Proofs ProofsTotal ProofsRescan.
 
 (** * Element rows belong to confirmed contract rows *)
 Definition confirmed_row (cs : list (N * cstatus)) (c : N) : Prop :=
-  exists st, alookup c cs = Some st /\ st <> SUnconfirmed.
+  exists st, alookup c cs = Some st /\ unconf st = false.
 Definition econf (s : state) : Prop := forall e, In e (celems s) -> confirmed_row (contracts s) (ce_cid e).
 
 Lemma confirmed_row_aset_other cs c c' st : c <> c' -> confirmed_row cs c -> confirmed_row (aset c' st cs) c.
 Proof. intros Hne [st0 [A B]]. exists st0. split; [rewrite alookup_aset_other by exact Hne; exact A|exact B]. Qed.
 
-Lemma confirmed_row_aset_same cs c st : st <> SUnconfirmed -> confirmed_row (aset c st cs) c.
+Lemma confirmed_row_aset_same cs c st : unconf st = false -> confirmed_row (aset c st cs) c.
 Proof. intros H. exists st. split; [apply alookup_aset_same|exact H]. Qed.
 
-Lemma confirmed_row_aset cs c c' st : st <> SUnconfirmed -> confirmed_row cs c -> confirmed_row (aset c' st cs) c.
+Lemma confirmed_row_aset cs c c' st : unconf st = false -> confirmed_row cs c -> confirmed_row (aset c' st cs) c.
 Proof.
   intros H R. destruct (N.eq_dec c c') as [->|Hne]; [apply confirmed_row_aset_same; exact H|].
   apply confirmed_row_aset_other; assumption.
 Qed.
 
-Lemma kstatus_confirmed k : kstatus k <> SUnconfirmed.
-Proof. destruct k; discriminate. Qed.
+Lemma kstatus_confirmed k : unconf (kstatus k) = false.
+Proof. destruct k; reflexivity. Qed.
+
+Lemma confirmed_row_reject rb h ng cs c : confirmed_row cs c -> confirmed_row (reject_rows rb h ng cs) c.
+Proof.
+  intros [st [A B]]. exists st. split; [|exact B]. rewrite alookup_reject, A. cbn.
+  destruct (rejst_cases rb h ng c st) as [->|[-> _]]; [reflexivity|discriminate].
+Qed.
 
 Lemma apply_event_econf b s e s' : econf s -> apply_event b s e = Ok s' -> econf s'.
 Proof.
@@ -39,9 +45,9 @@ Proof.
     destruct st; intros [= <-]; intros x Hx; cbn [celems contracts set_c cset] in *;
       (destruct Hx as [<-|Hx]; cbn [ce_cid];
        [|apply filter_In in Hx; destruct Hx as [Hx _]; specialize (EC x Hx)]);
-      try (apply confirmed_row_aset_same; discriminate);
-      try (apply confirmed_row_aset; [discriminate|exact EC]);
-      try exact EC; try (eexists; split; [exact L|discriminate]).
+      try (apply confirmed_row_aset_same; reflexivity);
+      try (apply confirmed_row_aset; [reflexivity|exact EC]);
+      try exact EC; try (eexists; split; [exact L|reflexivity]).
   - destruct (known s c); intros [= <-]; [|exact EC].
     intros x Hx. cbn [celems contracts set_c] in *. unfold crev in Hx. apply in_map_iff in Hx.
     destruct Hx as [x0 [E Hx0]]. specialize (EC x0 Hx0).
@@ -66,7 +72,7 @@ Proof.
     destruct (ce_cid x0 =? c)%N; subst x; cbn [ce_cid]; exact EC.
   - destruct (alookup c (contracts s)) as [st|] eqn:L; [|intros [= <-]; exact EC].
     destruct (cstatus_eqb st (kstatus k)); [|discriminate]. intros [= <-]. intros x Hx.
-    cbn [celems contracts set_c] in *. apply confirmed_row_aset; [discriminate|exact (EC x Hx)].
+    cbn [celems contracts set_c] in *. apply confirmed_row_aset; [reflexivity|exact (EC x Hx)].
 Qed.
 
 Lemma apply_events_econf b : forall evs s s', econf s -> fold_res (apply_event b) evs s = Ok s' -> econf s'.
@@ -88,7 +94,7 @@ Proof.
   intros EC H. destruct (apply_block_shape s b s' H) as [s1 [He [Hc [_ [_ Hk]]]]].
   pose proof (apply_events_econf b _ s s1 EC He) as EC1.
   intros x Hx. rewrite Hc in Hx. unfold cupd_apply in Hx. apply in_map_iff in Hx.
-  destruct Hx as [x0 [<- Hx0]]. rewrite Hk. exact (EC1 x0 Hx0).
+  destruct Hx as [x0 [<- Hx0]]. rewrite Hk. apply confirmed_row_reject. exact (EC1 x0 Hx0).
 Qed.
 
 Lemma revert_block_econf s b s' : econf s -> revert_block s b = Ok s' -> econf s'.
@@ -136,13 +142,13 @@ Proof.
   intros E. pose proof (confirmed_row_known s _ (EC x Hx)) as K'. rewrite E in K'. congruence.
 Qed.
 
-Lemma add_econf s c : econf s -> econf (fst (step s (AddContract c))).
+Lemma add_econf s c ng : econf s -> econf (fst (step s (AddContract c ng))).
 Proof.
   intros EC. unfold step; cbn [step_g]. destruct (known s c) eqn:K; cbn [fst]; [exact EC|].
   intros x Hx. cbn [celems contracts] in *. exact (econf_new_row s c EC K x Hx).
 Qed.
 
-Lemma renew_econf s c r : econf s -> econf (fst (step s (Renew c r))).
+Lemma renew_econf s c r ng : econf s -> econf (fst (step s (Renew c r ng))).
 Proof.
   intros EC. unfold step; cbn [step_g]. unfold renew.
   destruct (known s c && negb (known s r)) eqn:K; cbn [fst]; [|exact EC].
@@ -154,8 +160,9 @@ Qed.
    never pending/rejected — in every reachable state, whatever renewals were negotiated *)
 Lemma reach_econf s C hm : reach s C hm -> econf s.
 Proof.
-  induction 1 as [|s C hm c R IH|s C hm rs bs s' R IH F H|s C hm R IH|s C hm c r R IH].
+  induction 1 as [|s C hm rb R IH|s C hm c ng R IH|s C hm rs bs s' R IH F H|s C hm R IH|s C hm c r ng R IH].
   - intros x [].
+  - exact IH.
   - apply add_econf. exact IH.
   - exact (batch_econf s rs bs s' IH H).
   - intros x [].
@@ -163,7 +170,7 @@ Proof.
 Qed.
 
 (** * Selections that cover the confirmed rows behave like the code *)
-Definition covering (sel : selection) : Prop := forall st rt, st <> SUnconfirmed -> sel st rt = true.
+Definition covering (sel : selection) : Prop := forall st rt, unconf st = false -> sel st rt = true.
 
 Lemma row_sel_covering sel cs rn e : covering sel -> confirmed_row cs (ce_cid e) -> row_sel sel cs rn e = true.
 Proof. intros Cv [st [A B]]. unfold row_sel. rewrite A. apply Cv. exact B. Qed.
@@ -216,24 +223,26 @@ Qed.
 (* reachable states of the model with an arbitrary selection *)
 Inductive greach (sel : selection) : state -> list block -> N -> Prop :=
 | greach_init : greach sel init [] 0
-| greach_add s C hm c : greach sel s C hm -> greach sel (fst (step_g sel s (AddContract c))) C hm
+| greach_config s C hm rb : greach sel s C hm -> greach sel (fst (step_g sel s (Configure rb))) C hm
+| greach_add s C hm c ng : greach sel s C hm -> greach sel (fst (step_g sel s (AddContract c ng))) C hm
 | greach_batch s C hm rs bs s' :
     greach sel s C hm -> wf_batch C rs bs -> batch_g sel s rs bs = Ok s' ->
     greach sel s' (chain_after C rs bs) (hmax_after hm bs)
 | greach_reset s C hm : greach sel s C hm -> greach sel (reset s) [] 0
-| greach_renew s C hm c r : greach sel s C hm -> greach sel (fst (step_g sel s (Renew c r))) C hm.
+| greach_renew s C hm c r ng : greach sel s C hm -> greach sel (fst (step_g sel s (Renew c r ng))) C hm.
 
 (* a selection that reads at least the rows of confirmed contracts — whatever it does with
    renewed_to on the others — reaches exactly states of the code's model: every theorem about
    [reach] holds for it.  (Skipping pending/rejected rows is harmless: they have no element.) *)
 Lemma covering_selection_is_code sel s C hm : covering sel -> greach sel s C hm -> reach s C hm.
 Proof.
-  intros Cv. induction 1 as [|s C hm c R IH|s C hm rs bs s' R IH F H|s C hm R IH|s C hm c r R IH].
+  intros Cv. induction 1 as [|s C hm rb R IH|s C hm c ng R IH|s C hm rs bs s' R IH F H|s C hm R IH|s C hm c r ng R IH].
   - constructor.
-  - exact (reach_add s C hm c IH).
+  - exact (reach_config s C hm rb IH).
+  - exact (reach_add s C hm c ng IH).
   - rewrite (batch_g_eq sel s rs bs Cv (reach_econf s C hm IH)) in H. exact (reach_batch s C hm rs bs s' IH F H).
   - exact (reach_reset s C hm IH).
-  - exact (reach_renew s C hm c r IH).
+  - exact (reach_renew s C hm c r ng IH).
 Qed.
 
 (** * A skipped row goes stale *)
@@ -307,7 +316,7 @@ Definition rb3 : block := {| b_idx := ix 3 6; b_parent := ix 2 5; b_events := [E
 Definition rb3' : block := {| b_idx := ix 3 7; b_parent := ix 2 5; b_events := [] |}.
 Definition rb4' : block := {| b_idx := ix 4 8; b_parent := ix 3 7; b_events := [] |}.
 (* contract 1 formed in block 1; its renewal (contract 2) negotiated; a block without the renewal *)
-Definition ren_ops1 : list op := [AddContract 1; Batch [] [wb0; wb1]; Renew 1 2; Batch [] [rb2]].
+Definition ren_ops1 : list op := [AddContract 1 0; Batch [] [wb0; wb1]; Renew 1 2 1; Batch [] [rb2]].
 (* ... the renewal is confirmed in block 3 *)
 Definition ren_ops2 : list op := ren_ops1 ++ [Batch [] [rb3]].
 (* ... and reorged out: block 3 replaced by two blocks without it *)
@@ -323,10 +332,10 @@ Ltac wf_step E :=
 Lemma ren_wf : wf_ops init [] ren_ops3.
 Proof.
   cbn [ren_ops3 ren_ops2 ren_ops1 app wf_ops].
-  set (s0 := fst (step init (AddContract 1))).
+  set (s0 := fst (step init (AddContract 1 0))).
   assert (batch s0 [] [wb0; wb1] = Ok (runs s0 [Batch [] [wb0; wb1]])) as E1 by (vm_compute; reflexivity).
   rewrite E1. split; [split; [reflexivity|wit_solve]|].
-  set (s1 := fst (step (runs s0 [Batch [] [wb0; wb1]]) (Renew 1 2))).
+  set (s1 := fst (step (runs s0 [Batch [] [wb0; wb1]]) (Renew 1 2 1))).
   assert (batch s1 [] [rb2] = Ok (runs s1 [Batch [] [rb2]])) as E2 by (vm_compute; reflexivity).
   rewrite E2. split; [split; [reflexivity|wit_solve]|].
   set (s2 := runs s1 [Batch [] [rb2]]).
@@ -340,7 +349,8 @@ Qed.
 Lemma wf_ops_app : forall l1 l2 s C, wf_ops s C (l1 ++ l2) -> wf_ops s C l1.
 Proof.
   induction l1 as [|o t IH]; intros l2 s C H; [exact I|].
-  destruct o as [c|c r|rs bs| |]; cbn [app wf_ops] in *.
+  destruct o as [rb|c ng|c r ng|rs bs| |]; cbn [app wf_ops] in *.
+  - exact (IH l2 _ _ H).
   - exact (IH l2 _ _ H).
   - exact (IH l2 _ _ H).
   - destruct (batch s rs bs) as [s'| |]; [destruct H as [F H]; split; [exact F|]|..]; exact (IH l2 _ _ H).
@@ -355,17 +365,17 @@ Qed.
 Lemma renewal_witness :
   reach (runs init ren_ops1) [rb2; wb1; wb0] 2 /\
   snd (step (runs init ren_ops1) Observe) =
-    OState [(1%N, true, 0%N)] [(ix 0 1, true); (ix 1 2, true); (ix 2 5, true)] (Some (ix 2 5)) [(1%N, 2%N)] /\
+    OState [(1%N, true, 0%N)] [(ix 0 1, true); (ix 1 2, true); (ix 2 5, true)] (Some (ix 2 5)) [(1%N, 2%N)] [(1%N, SActive); (2%N, SUnconfirmed)] /\
   alookup 1%N (contracts (runs init ren_ops1)) = Some SActive /\
   reach (runs init ren_ops2) [rb3; rb2; wb1; wb0] 3 /\
   snd (step (runs init ren_ops2) Observe) =
     OState [(1%N, true, 0%N); (2%N, true, 0%N)] [(ix 0 1, true); (ix 1 2, true); (ix 2 5, true); (ix 3 6, true)]
-           (Some (ix 3 6)) [(1%N, 2%N)] /\
+           (Some (ix 3 6)) [(1%N, 2%N)] [(1%N, SRenewed); (2%N, SActive)] /\
   alookup 1%N (contracts (runs init ren_ops2)) = Some SRenewed /\
   reach (runs init ren_ops3) [rb4'; rb3'; rb2; wb1; wb0] 4 /\
   snd (step (runs init ren_ops3) Observe) =
     OState [(1%N, true, 0%N)] [(ix 0 1, true); (ix 1 2, true); (ix 2 5, true); (ix 3 7, true); (ix 4 8, true)]
-           (Some (ix 4 8)) [(1%N, 2%N)] /\
+           (Some (ix 4 8)) [(1%N, 2%N)] [(1%N, SActive); (2%N, SUnconfirmed)] /\
   alookup 1%N (contracts (runs init ren_ops3)) = Some SActive.
 Proof.
   pose proof ren_wf as W3.
@@ -383,11 +393,11 @@ Lemma narrowed_on_renewed_to_refuted :
   wf_ops init [] ren_ops1 /\
   alookup 1%N (contracts (runs_g sel_not_renewed init ren_ops1)) = Some SActive /\
   snd (step_g sel_not_renewed (runs_g sel_not_renewed init ren_ops1) Observe) =
-    OState [(1%N, false, 0%N)] [(ix 0 1, true); (ix 1 2, true); (ix 2 5, true)] (Some (ix 2 5)) [(1%N, 2%N)] /\
+    OState [(1%N, false, 0%N)] [(ix 0 1, true); (ix 1 2, true); (ix 2 5, true)] (Some (ix 2 5)) [(1%N, 2%N)] [(1%N, SActive); (2%N, SUnconfirmed)] /\
   (* and stays so when the renewal is reorged out *)
   snd (step_g sel_not_renewed (runs_g sel_not_renewed init ren_ops3) Observe) =
     OState [(1%N, false, 0%N)] [(ix 0 1, true); (ix 1 2, true); (ix 2 5, true); (ix 3 7, true); (ix 4 8, true)]
-           (Some (ix 4 8)) [(1%N, 2%N)] /\
+           (Some (ix 4 8)) [(1%N, 2%N)] [(1%N, SActive); (2%N, SUnconfirmed)] /\
   alookup 1%N (contracts (runs_g sel_not_renewed init ren_ops3)) = Some SActive.
 Proof.
   pose proof ren_wf as W3.
@@ -403,12 +413,12 @@ Lemma narrowed_on_resolution_refuted :
   alookup 1%N (contracts (runs_g sel_unresolved init ren_ops3)) = Some SActive /\
   snd (step_g sel_unresolved (runs_g sel_unresolved init ren_ops3) Observe) =
     OState [(1%N, false, 0%N)] [(ix 0 1, true); (ix 1 2, true); (ix 2 5, true); (ix 3 7, true); (ix 4 8, true)]
-           (Some (ix 4 8)) [(1%N, 2%N)].
+           (Some (ix 4 8)) [(1%N, 2%N)] [(1%N, SActive); (2%N, SUnconfirmed)].
 Proof. split; [exact ren_wf|]. split; vm_compute; reflexivity. Qed.
 
 (** * Completeness: on histories without reset a confirmed contract has its element *)
 Definition ecomplete (s : state) : Prop :=
-  forall c st, alookup c (contracts s) = Some st -> st <> SUnconfirmed -> exists e, In e (celems s) /\ ce_cid e = c.
+  forall c st, alookup c (contracts s) = Some st -> unconf st = false -> exists e, In e (celems s) /\ ce_cid e = c.
 
 Lemma apply_event_ecomplete b s e s' : ecomplete s -> apply_event b s e = Ok s' -> ecomplete s'.
 Proof.
@@ -430,7 +440,7 @@ Proof.
     destruct (cstatus_eqb st (kstatus k)); [intros [= <-]; exact EC|].
     destruct st; try discriminate. intros [= <-]. intros c' st' A B. cbn [celems contracts set_c] in *.
     destruct (N.eq_dec c' c) as [->|Hne].
-    + apply (EC c SActive L). discriminate.
+    + apply (EC c SActive L). reflexivity.
     + rewrite alookup_aset_other in A by exact Hne. exact (EC c' st' A B).
 Qed.
 
@@ -440,7 +450,7 @@ Proof.
   - destruct (alookup c (contracts s)) as [st|] eqn:L; [|intros [= <-]; exact EC].
     destruct st; try discriminate. intros [= <-]. intros c' st' A B. cbn [celems contracts set_c] in *.
     destruct (N.eq_dec c' c) as [->|Hne].
-    + rewrite alookup_aset_same in A. congruence.
+    + rewrite alookup_aset_same in A. injection A as <-. discriminate.
     + rewrite alookup_aset_other in A by exact Hne. destruct (EC c' st' A B) as [x [Hx Q]]. exists x. split; [|exact Q].
       unfold cdel. apply filter_In. split; [exact Hx|]. destruct (ce_cid x =? c)%N eqn:Q2; [lia|reflexivity].
   - destruct (known s c); intros [= <-]; [|exact EC].
@@ -451,7 +461,7 @@ Proof.
   - destruct (alookup c (contracts s)) as [st|] eqn:L; [|intros [= <-]; exact EC].
     destruct (cstatus_eqb st (kstatus k)) eqn:Q; [|discriminate]. intros [= <-].
     intros c' st' A B. cbn [celems contracts set_c] in *. destruct (N.eq_dec c' c) as [->|Hne].
-    + apply (EC c st L). intros ->. destruct k; discriminate.
+    + apply (EC c st L). destruct st, k; try discriminate; reflexivity.
     + rewrite alookup_aset_other in A by exact Hne. exact (EC c' st' A B).
 Qed.
 
@@ -484,7 +494,9 @@ Lemma apply_block_ecomplete s b s' : ecomplete s -> apply_block s b = Ok s' -> e
 Proof.
   intros EC H. destruct (apply_block_shape s b s' H) as [s1 [He [Hc [_ [_ Hk]]]]].
   pose proof (apply_events_ecomplete b _ s s1 EC He) as EC1.
-  intros c st A B. rewrite Hk in A. destruct (EC1 c st A B) as [x [Hx Q]].
+  intros c st A B. rewrite Hk, alookup_reject in A.
+  destruct (alookup c (contracts s1)) as [st1|] eqn:L1; [|discriminate]. cbn in A. injection A as <-.
+  rewrite rejst_conf in B. destruct (EC1 c st1 L1 B) as [x [Hx Q]].
   exists (upd1_apply b x). split; [rewrite Hc; unfold cupd_apply; apply in_map; exact Hx|exact Q].
 Qed.
 
@@ -524,47 +536,57 @@ Proof.
 Qed.
 
 Lemma ecomplete_new_row s c : ecomplete s ->
-  forall c' st, alookup c' (aset c SUnconfirmed (contracts s)) = Some st -> st <> SUnconfirmed ->
+  forall c' st, alookup c' (aset c SUnconfirmed (contracts s)) = Some st -> unconf st = false ->
   exists e, In e (celems s) /\ ce_cid e = c'.
 Proof.
   intros EC c' st A B. destruct (N.eq_dec c' c) as [->|Hne].
-  - rewrite alookup_aset_same in A. congruence.
+  - rewrite alookup_aset_same in A. injection A as <-. discriminate.
   - rewrite alookup_aset_other in A by exact Hne. exact (EC c' st A B).
 Qed.
 
 Lemma lreach_ecomplete s C : lreach s C -> ecomplete s.
 Proof.
-  induction 1 as [|s C c R IH Hm|s C rs bs s' R IH F LC H|s C c r R IH Hm].
+  induction 1 as [|s C rb R IH|s C c ng R IH Hm|s C rs bs s' R IH F LC H|s C c r ng R IH Hm|s C bss s' R IH EC H].
   - intros c st A. discriminate.
+  - exact IH.
   - unfold step; cbn [step_g]. destruct (known s c); cbn [fst]; [exact IH|].
     intros c' st A B. cbn [celems contracts] in *. exact (ecomplete_new_row s c IH c' st A B).
   - exact (batch_ecomplete s rs bs s' IH H).
   - unfold step; cbn [step_g]. unfold renew. destruct (known s c && negb (known s r)); cbn [fst]; [|exact IH].
     intros c' st A B. cbn [celems contracts] in *. exact (ecomplete_new_row s r IH c' st A B).
+  - (* reset + rescan: the rescan restores the element of every contract the chain confirms *)
+    destruct (rescan_scan s C bss (lreach_tinv s C R) EC) as [s2 [E2 [[_ [LC [_ [SI _]]]] [EO _]]]].
+    rewrite H in E2. injection E2 as <-.
+    intros c st A B. apply EO; [unfold known; rewrite A; reflexivity|].
+    apply (cstat_conf_formed C c LC). destruct (SI c st A) as [<-|[-> _]]; [exact B|discriminate].
 Qed.
 
-Lemma next_stat_confirmed old ev : old <> SUnconfirmed -> next_stat old ev <> SUnconfirmed.
-Proof. intros H. destruct ev as [[c rv|c o nw|c k]|]; cbn; auto; [discriminate|apply kstatus_confirmed]. Qed.
-
-Lemma cstat_formed : forall C c b, lifecycle_ok C -> In b C -> formed_in c b -> cstat C c <> SUnconfirmed.
-Proof.
-  induction C as [|b' C IH]; intros c b LC Hb Hf; [destruct Hb|].
-  cbn [lifecycle_ok] in LC. destruct LC as [LC' [ND V]]. cbn [cstat]. destruct Hb as [->|Hb].
-  - destruct Hf as [rv Hf]. apply grouped_In_iff in Hf.
-    rewrite (ev_of_in c _ (EFormed c rv) ND Hf eq_refl). cbn. discriminate.
-  - apply next_stat_confirmed. exact (IH c b LC' Hb Hf).
-Qed.
-
-(* on lifecycle histories (no reset): a contract of the host whose formation is on the processed
-   chain has a stored element — the converse of [contract_elements_formed_on_chain]: elements are
-   dropped exactly when the formation is reverted *)
+(* on lifecycle histories — resets followed by the rescan of the processed chain included — a
+   contract of the host whose formation is on the processed chain has a stored element: the converse
+   of [contract_elements_formed_on_chain]; elements are dropped exactly when the formation is reverted *)
 Lemma confirmed_contract_has_element s C c : lreach s C -> known s c = true ->
   (exists b, In b C /\ formed_in c b) -> exists e, In e (celems s) /\ ce_cid e = c.
 Proof.
   intros R K [b [Hb Hf]]. destruct (lreach_tinv s C R) as [_ [LC [_ [SI _]]]].
   unfold known in K. destruct (alookup c (contracts s)) as [st|] eqn:L; [|discriminate].
-  apply (lreach_ecomplete s C R c st L). rewrite (SI c st L). exact (cstat_formed C c b LC Hb Hf).
+  apply (lreach_ecomplete s C R c st L).
+  pose proof (cstat_formed C c b LC Hb Hf) as U. rewrite (stat_rel_conf _ _ U (SI c st L)). exact U.
 Qed.
+
+Lemma rescan_restores_elements s C bss s' c : lreach s C -> concat bss = rev C ->
+  run_applies (reset s) bss = Ok s' -> known s c = true -> (exists b, In b C /\ formed_in c b) ->
+  exists e, In e (celems s') /\ ce_cid e = c.
+Proof.
+  intros R EC H K F. destruct (rescan_never_fails s C bss R EC) as [s2 [E2 [R2 K2]]].
+  rewrite H in E2. injection E2 as <-. apply (confirmed_contract_has_element s' C c R2); [rewrite K2; exact K|exact F].
+Qed.
+
+(* the contract rows follow the processed chain: pending until the formation is on it (rejected once
+   the reject buffer has passed, active again as soon as the formation confirms after all), active
+   from the formation to the resolution, then what the resolution says *)
+Lemma status_follows_chain s C c st : lreach s C -> alookup c (contracts s) = Some st ->
+  st = cstat C c \/ (st = SRejected /\ cstat C c = SUnconfirmed).
+Proof. intros R A. exact (proj1 (proj2 (proj2 (proj2 (lreach_tinv s C R)))) c st A). Qed.
 
 (** * Statements for the props file *)
 (* whatever renewal has been negotiated for it and whatever its status: a stored element's proof is
